@@ -8,10 +8,12 @@ from ..core import Fail, Result
 ID = "C20"
 RULE = ("three case kinds. (perturb) generic row-wise SDE x accepted (method, options, Levy mode), batch 2..6: all rows "
         "except row i of y0 and of the Brownian sample (W, U, A; through a proxy mixing two Brownian objects) are "
-        "replaced - row i of every output must be bit-identical. (permute) rows of y0 and of the Brownian motion are "
+        "replaced - row i of every output must be bit-identical (a third of the cases with logqp=True, comparing the KL "
+        "output row as well, the replaced rows of a diagonal SDE sitting where its diffusion numerically vanishes). (permute) rows of y0 and of the Brownian motion are "
         "permuted - outputs are permuted (1e3*eps; kernels may round differently under a different layout). (noise) "
         "BrownianInterval of shape (B,m)/(B,) in every Levy mode after a generated history: adding 1 to batch row r of "
-        "every noise tensor changes row r of W/U/A and leaves every other row bit-identical. Non-trivial = batch >= 3 and "
+        "every noise tensor changes row r of W/U/A and leaves every other row bit-identical; shapes with several batch "
+        "dimensions are included and the random part of A must differ between any two batch elements. Non-trivial = batch >= 3 and "
         ">= 3 steps (solver kinds) / a non-root node (noise kind); distinct = distinct canonical case JSON.")
 ASSUMPTIONS = ["generated SDEs act row-wise (no batch-norm-like coupling), fixed steps"]
 BUDGET = {
@@ -26,13 +28,36 @@ def _solver_case(draw, tier, kind):
     spec, combo = draw(solve.spec_and_combo(dtypes=("float64", "float32"), max_batch=6, min_batch=2))
     tset = draw(solve.time_setup(max_steps=12 if tier == "quick" else 32, dtypes=(spec["dtype"],)))
     return {"kind": kind, "spec": spec, "combo": combo, "time": tset, "row": draw(st.integers(0, 5)),
+            "logqp": draw(st.sampled_from([False, True])) if spec["noise_type"] == "diagonal" else
+            draw(st.sampled_from([False, False, False, True])),
             "entropy": draw(st.integers(0, 2 ** 31 - 2)), "entropy2": draw(st.integers(0, 2 ** 31 - 2)),
             "perm_seed": draw(st.integers(0, 2 ** 31 - 1))}
 
 
+class _SmallGRows(torch.nn.Module):
+    """Row-wise wrapper: rows whose first state component is beyond 50 get a (numerically) vanishing diffusion."""
+
+    def __init__(self, base):
+        super().__init__()
+        self.base = base
+        self.noise_type, self.sde_type, self.spec = base.noise_type, base.sde_type, base.spec
+
+    def f(self, t, y):
+        return self.base.f(t, y)
+
+    def h(self, t, y):
+        return self.base.h(t, y)
+
+    def g(self, t, y):
+        g = self.base.g(t, y)
+        small = (y[:, :1].abs() > 50).to(g.dtype)
+        return g * (1 - small) + 1e-9 * g * small
+
+
 @st.composite
 def _noise_case(draw, tier):
-    cfg = draw(history.configs(wrappers=("interval",), shapes=[[3], [4, 2], [2, 3], [5, 1], [3, 3]],
+    cfg = draw(history.configs(wrappers=("interval",), shapes=[[3], [4, 2], [2, 3], [5, 1], [3, 3], [2, 3, 2], [3, 2, 2],
+                                                               [2, 2, 3]],
                                allow_user=False, max_pieces=300))
     ops = draw(history.op_lists(cfg, min_ops=1, max_ops=6, max_sweep=20))
     return {"kind": "noise", "cfg": cfg, "ops": ops, "row": draw(st.integers(0, 4))}
@@ -40,6 +65,25 @@ def _noise_case(draw, tier):
 
 def strategy(tier):
     return st.one_of(_solver_case(tier, "perturb"), _solver_case(tier, "permute"), _noise_case(tier))
+
+
+def enumerate_cases(tier):
+    """Every accepted (sde_type, noise_type, method, options, Levy mode) cell with each solver-level kind: row perturbation
+    (plain and with logqp=True) and row permutation."""
+    import os
+    import random
+    seed = int(os.environ.get("VERIF_SEED", "1") or 1)
+    for idx, combo in enumerate(sdes.accepted_combos(include_grad_free=True, all_levy=False)):
+        nt = combo["noise_type"]
+        for kind, logqp in (("perturb", False), ("perturb", True), ("permute", False)):
+            rnd = random.Random(seed * 9001 + idx * 3 + (1 if logqp else 0))
+            spec = {"sde_type": combo["sde_type"], "noise_type": nt, "d": 2, "m": 1 if nt == "scalar" else 2,
+                    "batch": rnd.choice([3, 4, 5]), "hidden": 3, "seed": rnd.randrange(2 ** 31), "tdep": True,
+                    "fscale": 1.0, "gscale": 0.7, "dtype": "float64"}
+            yield {"kind": kind, "spec": spec, "combo": combo, "logqp": logqp, "row": rnd.randrange(6),
+                   "time": {"t0": 0.0, "t1": 0.625, "dt": 0.125, "tdtype": "float64"},
+                   "entropy": rnd.randrange(2 ** 31 - 2), "entropy2": rnd.randrange(2 ** 31 - 2),
+                   "perm_seed": rnd.randrange(2 ** 31)}
 
 
 def run_case(case):
@@ -56,24 +100,38 @@ def run_case(case):
     if not float(ts[0]) < float(ts[1]) < float(ts[2]):
         return Result(labels=["degenerate_ts"])
     sig = {"kind": case["kind"], "method": combo["method"], "noise_type": spec["noise_type"]}
-    shape = (B, spec["m"])
+    logqp = bool(case.get("logqp")) and case["kind"] == "perturb"
+    if logqp and spec["noise_type"] == "diagonal":
+        sde = _SmallGRows(sde)        # other rows may carry a vanishing diffusion (guarded division in the KL integrand)
+    m_bm = spec["m"] + 1 if (logqp and spec["noise_type"] == "diagonal") else spec["m"]
+    shape = (B, m_bm)
 
     def mk(entropy):
-        return sdes.make_bm(torchsde, spec, ts[0], ts[-1], entropy, levy=combo["levy"])
+        return torchsde.BrownianInterval(t0=float(ts[0]), t1=float(ts[-1]), size=shape, dtype=dtype, entropy=int(entropy),
+                                         levy_area_approximation=combo["levy"])
 
     def go(y, bm):
         with torch.no_grad():
-            ys, _ = solve.run(torchsde, sde, y, ts, combo, tm["dt"], bm=bm)
-        return ys
+            out = torchsde.sdeint(sde, y, ts, bm=bm, method=combo["method"], dt=tm["dt"],
+                                  options=dict(combo["options"]) or None, logqp=logqp)
+        if logqp:
+            # states and the per-row KL integrand, stacked so that row comparisons cover both outputs
+            ys, lq = out
+            lq_padded = torch.cat([lq, lq[-1:]], dim=0).unsqueeze(-1)      # (T, B, 1): one extra "channel" per row
+            return torch.cat([ys, lq_padded], dim=-1)
+        return out
 
     ref = go(y0, mk(case["entropy"]))
     steps = (tm["t1"] - tm["t0"]) / tm["dt"]
-    labels = [f"kind={case['kind']}", solve.combo_label(combo), f"batch={B}", f"dtype={spec['dtype']}"]
+    labels = [f"kind={case['kind']}", solve.combo_label(combo), f"batch={B}", f"dtype={spec['dtype']}"] + \
+        (["with_logqp"] if logqp else [])
     if case["kind"] == "perturb":
         i = case["row"] % B
         mask = torch.zeros(B, dtype=torch.bool)
         mask[i] = True
         y_alt = sdes.y0_for(spec, seed_offset=3) * 1.7
+        if logqp and spec["noise_type"] == "diagonal":
+            y_alt = y_alt + 100.0          # the replaced rows sit where the wrapped diffusion (nearly) vanishes
         y_mix = torch.where(mask.unsqueeze(-1), y0, y_alt)
         bm_a, bm_b = mk(case["entropy"]), mk(case["entropy2"] if case["entropy2"] != case["entropy"] else case["entropy"] + 1)
 
@@ -134,7 +192,9 @@ def _run_noise(case):
         def fake(size, dtype, device, seed):
             out = real(size, dtype, device, seed)
             if bump and len(size) >= 1 and size[0] == shape[0]:
-                out[r] += 1.0
+                # a different amount for every noise tensor: equal bumps cancel exactly in the right half of a midpoint
+                # bridge (W - left_W), which would look like "row r does not react to its own noise"
+                out[r] += 0.5 + (int(seed) % 1009) / 1009.0
             return out
 
         with brownian_tools.patched(bi, "_randn", fake):
@@ -144,6 +204,7 @@ def _run_noise(case):
     base, interval = run(False)
     pert, _ = run(True)
     checks = 0
+    reacted = False
     for (a, b), o1, o2 in zip(queries, base, pert):
         for name, x, y in zip("WUA", o1, o2):
             if x is None:
@@ -154,10 +215,25 @@ def _run_noise(case):
                 return Result(nontrivial=True, checks=checks, fail=Fail(
                     "noise_row_crosstalk", f"perturbing the noise of batch row {r} changed rows {rows} of {name}{(a, b)}",
                     sig))
-            if name == "W" and rows != [r]:
-                return Result(nontrivial=True, checks=checks, fail=Fail(
-                    "noise_row_not_driven", f"row {r} of W{(a, b)} did not react to its own noise (rows changed: {rows})",
-                    sig))
+            if name == "W" and rows == [r]:
+                reacted = True
+        # every batch element has its own Levy-area noise: the random part of A differs between any two batch slices
+        W_, U_, A_ = o1
+        if A_ is not None and len(shape) >= 2 and b > a:
+            H_ = U_ / (b - a) - 0.5 * W_
+            R = (A_ - (H_.unsqueeze(-1) * W_.unsqueeze(-2) - W_.unsqueeze(-1) * H_.unsqueeze(-2)))
+            R = R.reshape(-1, shape[-1], shape[-1])
+            if shape[-1] >= 2:
+                checks += 1
+                off = R[:, 0, 1]
+                if torch.unique(off).numel() != off.numel():
+                    return Result(nontrivial=True, checks=checks, fail=Fail(
+                        "levy_noise_shared_between_batch_elements",
+                        f"the random part of A{(a, b)} coincides for two batch elements of a sample of shape {list(shape)}",
+                        sig))
+    if not reacted:
+        return Result(nontrivial=True, checks=checks, fail=Fail(
+            "noise_row_not_driven", f"row {r} of W did not react to its own noise in any of {len(queries)} queries", sig))
     stats = brownian_tools.tree_stats(interval)
     labels = ["kind=noise", f"levy={cfg['levy']}", f"shape={list(shape)}"]
     return Result(nontrivial=stats["depth"] >= 1, labels=labels, checks=checks)
